@@ -509,29 +509,28 @@ class Grid:
                     possible_metric_vars = [
                         self._metrics[ac] for ac in axis_combinations
                     ]
-                    for possible_combinations in itertools.product(
-                        *possible_metric_vars
-                    ):
-                        metric_dims = set(
-                            [d for mv in possible_combinations for d in mv.dims]
-                        )
-                        if metric_dims.issubset(array_dims):
-                            # Condition 3: use provided metrics with matching dimensions to calculate for required metric
-                            metric_vars = possible_combinations
-                            break
+                    # one factor per block of the partition: the metric registered at the
+                    # array's position if there is one, otherwise one of them interpolated to it
+                    factors = []
+                    for candidates in possible_metric_vars:
+                        if not candidates:
+                            raise KeyError("no metric registered for this block")
+                        at_position = [
+                            mv for mv in candidates if set(mv.dims).issubset(array_dims)
+                        ]
+                        if at_position:
+                            # Condition 3: use provided metrics with matching dimensions
+                            factors.append(at_position[0])
                         else:
                             # Condition 4: metrics in the wrong position (must interpolate before multiplying)
-                            possible_dims = [pc.dims for pc in possible_combinations]
+                            mv = candidates[-1]
                             warnings.warn(
-                                f"Metric at {array.dims} being interpolated from metrics at dimensions {possible_dims}. Boundary value set to 'extend'."
+                                f"Metric at {array.dims} being interpolated from metrics at dimensions {mv.dims}. Boundary value set to 'extend'."
                             )
-                            metric_vars = tuple(
-                                self.interp_like(pc, array, "extend", None)
-                                for pc in possible_combinations
-                            )
-                    if metric_vars is not None:
+                            factors.append(self.interp_like(mv, array, "extend", None))
+                    if factors:
                         # return the product of the metrics
-                        metric_vars = functools.reduce(operator.mul, metric_vars, 1)
+                        metric_vars = functools.reduce(operator.mul, factors, 1)
                         break
                 except KeyError:
                     pass
